@@ -407,6 +407,12 @@ func (w *World) CheckByName(out *Outcome, o *Obs) []Violation {
 			}
 		}
 	}
+	// acyclic programs in which the named component is substituted by a wrapper of another
+	// type: no early reference is ever handed out, so nothing can be stale and the start must
+	// succeed with the wrapper injected wherever it (the published version) is assignable
+	if w.P.Family == "wrapname" && out.Verdict == MustSucceed && !o.OK() {
+		vs = append(vs, v("C07", "by-name-published-version-rejected", "", fmt.Sprintf("the named component is published as a wrapper that is assignable to the requesting field, the program is acyclic, yet start-up failed: err=%q panic=%q", o.ErrText, o.Panic)))
+	}
 	// an optional absent/incompatible by-name point must never make start-up fail or panic:
 	// judged when it is the only possible reason
 	if out.Verdict == MustSucceed && !o.OK() {
